@@ -18,15 +18,31 @@ def histParseSub (j : Json) : R (Option SubSpec) :=
                 fields := ← histParseFields a "fields" } : Alt))
     return some { name := chars (← str s "name"), alts := alts, default := chars (← str s "default") }
 
+def histCtype : String → R BConv
+  | "int" => pure .int
+  | "float" => pure .float
+  | "str" => pure .str
+  | t => throw s!"bad ctype {t}"
+
+/-- `"ctype"` on a field = `field(..., type=<builtin>)` -/
+def histParseCustom (j : Json) : R (List (Str × BConv)) := do
+  let fs ← arr j "fields"
+  let l ← fs.toList.mapM (fun f => do
+    match f.getObjVal? "ctype" with
+    | .ok (.str t) => return some (chars (← str f "name"), ← histCtype t)
+    | _ => return none)
+  return l.filterMap id
+
 def histParseClass (j : Json) : R ClassSpec := do
-  return { name := chars (← str j "name"), fields := ← histParseFields j "fields", sub := ← histParseSub j }
+  return { name := chars (← str j "name"), fields := ← histParseFields j "fields", sub := ← histParseSub j,
+           custom := ← histParseCustom j }
 
 def histParseOp (j : Json) : R Op := do
   let i ← nat j "i"
   match (← str j "op") with
   | "construct" =>
     return .construct i (← parseCfg (← obj j "cfg")) ((bool j "cfg_path").toOption.getD false)
-      ((bool j "resolve").toOption.getD false)
+      (((strList j "cfg_files").toOption.getD []).map chars)
   | "add" => return .add i { dest := chars (← str j "dest"), cls := ← histParseClass (← obj j "cls") }
   | "parse" => return .parse i ((bool j "known").toOption.getD false) ((← strList j "argv").map chars)
   | "print_help" => return .printHelp i
@@ -43,13 +59,24 @@ def histParseFileC (j : Json) : R FileC := do
       return (chars k, v))
     return (chars d, kvs))
 
-def histParseFiles (c : Json) : R (List (Str × Option FileC)) :=
+def histParseKV (a : Array Json) : R (List (Str × Val)) :=
+  a.toList.mapM (fun kv => do
+    let k ← kv.getArrVal? 0 >>= (·.getStr?)
+    let v ← eParseVal (← kv.getArrVal? 1)
+    return (chars k, v))
+
+def histParseFileJ (x : Json) : R FileJ :=
+  match x.getObjVal? "rootless" with
+  | .ok (.arr a) => (histParseKV a).map FileJ.rootless
+  | _ => (histParseFileC x).map FileJ.rooted
+
+def histParseFiles (c : Json) : R (List (Str × Option FileJ)) :=
   match c.getObjVal? "files" with
   | .ok (.arr a) => a.toList.mapM (fun p => do
       let k ← p.getArrVal? 0 >>= (·.getStr?)
       let v ← match p.getArrVal? 1 with
         | .ok .null => pure none
-        | .ok x => (histParseFileC x).map some
+        | .ok x => (histParseFileJ x).map some
         | .error e => throw e
       return (chars k, v))
   | _ => pure []
@@ -75,11 +102,17 @@ def histOutJson : Out → Json
 def histEnv (c : Json) : R Env := do
   return { fenv := ← eParseFEnv c, files := ← histParseFiles c }
 
+def histCfgJson (c : Cfg) : Json :=
+  Json.mkObj [("dash", match c.dash with | .underscore => "UNDERSCORE" | .both => "UNDERSCORE_AND_DASH" | .dashOnly => "DASH"),
+              ("gen", match c.gen with | .flat => "FLAT" | .nested => "NESTED" | .both => "BOTH"),
+              ("nest", match c.nest with | .default => "DEFAULT" | .withoutRoot => "WITHOUT_ROOT")]
+
 /-- op `hist.run`: {ops:[…], floats, files} ↦ the output of every API call of the history -/
 def opHistRun (c : Json) : R Json := do
   let env ← histEnv c
   let ops ← (← arr c "ops").toList.mapM histParseOp
-  return Json.mkObj [("outs", Json.arr ((runHist env init ops).map histOutJson).toArray)]
+  return Json.mkObj [("outs", Json.arr ((runHist env init ops).map histOutJson).toArray),
+                     ("g", Json.arr ((runG env init ops).map histCfgJson).toArray)]
 
 /-- op `hist.fresh`: {spec:{cfg,cfg_path,resolve,regs:[{dest,cls}]}, known, argv, floats, files} ↦ `fresh` -/
 def opHistFresh (c : Json) : R Json := do
@@ -88,7 +121,7 @@ def opHistFresh (c : Json) : R Json := do
   let regs ← (← arr s "regs").toList.mapM (fun r => do
     return ({ dest := chars (← str r "dest"), cls := ← histParseClass (← obj r "cls") } : Reg))
   let spec : Spec := { cfg := ← parseCfg (← obj s "cfg"), cfgPath := (bool s "cfg_path").toOption.getD false,
-                       resolve := (bool s "resolve").toOption.getD false, regs := regs }
+                       cfgFiles := ((strList s "cfg_files").toOption.getD []).map chars, regs := regs }
   return histOutJson (fresh env spec ((bool c "known").toOption.getD false) ((← strList c "argv").map chars))
 
 def historyOps : List (String × (Json → R Json)) :=
